@@ -148,6 +148,26 @@ def r09_1(chk, sd, dx):
         else:
             chk.ob("R09.1", SD, q, "the radii tested are the kernel's output for this grid",
                    bool(rdef) and kern in rdef[0].key() and ".reshape(sht.grid[0].shape)" in rdef[0].key(), found=str(rdef[0])[:120] if rdef else None)
+            # nothing between the kernel and the test may rewrite the radii (a clip / maximum / abs turns the -1 sentinel into a radius)
+            first_raise = min((ev.events.index(e) for e in raises), default=len(ev.events))
+            redefs = [e for i, e in enumerate(ev.events) if i < first_raise and e.kind in ("assign", "store", "aug")
+                      and ((e.kind == "assign" and e.name == "r") or (e.kind != "assign" and e.target.key().startswith(("$r[", "$r."))))]
+            later = []
+            for e in redefs:
+                vk = e.value.key() if e.value is not None else ""
+                if kern in vk:
+                    continue
+                kills = e.kind != "assign" or bool(find_atoms(e.value, lambda a: a[0] == "call" and call_name(a) in SENTINEL_KILLERS))
+                shape_only = not kills and all(call_name(a) in (".reshape", ".astype", ".ravel", ".flatten", ".copy", "numpy.asarray", "numpy.ascontiguousarray",
+                                                              "numpy.array", "numpy.reshape")
+                                               for a in find_atoms(e.value, lambda a: a[0] == "call")) and not e.value.is_poly()
+                if kills:
+                    later.append(e)
+                elif not shape_only:
+                    raise AnalysisError(f"{SD}:{q}: the radii are rewritten before the negative-radius test in a way that is not recognised: {vk[:100]}")
+            chk.ob("R09.1", SD, q, "the radii reach the negative-radius test as the root finder returned them (only reshaped: nothing between the two "
+                   "may turn the -1 sentinel into an admissible radius)", not later, node=later[0].node if later else None,
+                   fingerprint="sentinel-survives", found=[f"line {e.lineno}: r = {str(e.value)[:80]}" for e in later][:2])
     # root finders
     texts = {}
     for q, evalname in (("brents_stock", "one_weight"), ("brents_pro", "one_rho")):
